@@ -55,6 +55,8 @@ of `Model/Reactive.lean` (the model and its theorems are untouched):
 * `weff|wieff|wseff|wsieff [h<id>] <expr>` — `Effect::watch` / `watch_sync`; the handler's read of signal `<id>` is by
   contract untracked and its value goes nowhere: dropped (after checking that `<id>` is a plain signal).
 * `rieff` — `RenderEffect::new_isomorphic`: as `reff`.
+* `drop <memo>` — dispose / drop a memo that no node reads (checked; it also becomes a leaf): the real memo stays
+  behind as a dead entry in its sources' subscriber lists; the model's node simply is never read again.
 * `oncl` — every effect run registers one `on_cleanup`; C02 lines then end in ` cl=<node>:<calls>,…` = for every effect,
   one call per run of this op that superseded an earlier run, plus one when it is disposed after having run.
 * `imeff <expr>` — `ImmediateEffect::new`: no task; the real effect runs inside the notification that reaches it.
@@ -92,6 +94,8 @@ structure DState where
   /-- immediate effects -/
   imms : List Nat := []
   oncl : Bool := false
+  /-- dropped memos -/
+  dropped : List Nat := []
   /-- run counts and liveness when the current op started (for `cl=`) -/
   runs0 : List Nat := []
   alive0 : List Bool := []
@@ -353,21 +357,36 @@ def afterOp (m : Mode) (d : DState) (read : Option (Nat × Int)) : String :=
 def clearLog (d : DState) : DState :=
   { d with s := { d.s with log := [] }, runs0 := d.s.nodes.map (·.runs), alive0 := d.s.nodes.map (·.alive) }
 
-/-- run every woken immediate effect to completion (a run can recompute a memo another one reads) -/
-def flushImm (p : Prog) (imms : List Nat) : Nat → State → State
-  | 0, s => s
-  | k + 1, s =>
-    match imms.find? (fun i => (s.get i).woken) with
-    | some i => flushImm p imms k (pollEff p s i)
-    | none => s
+/-- Run every woken immediate effect to completion, in the order in which they were notified (the order of their
+`woke` events in the log from position `pos` on): the real effects run inside the notifications, so the memos they
+pull re-subscribe to their sources in that order.  A run can recompute a memo another immediate effect reads: its
+notification is appended to the log and found later. -/
+def flushImm (p : Prog) (imms : List Nat) : Nat → Nat → State → State
+  | 0, _, s => s
+  | k + 1, pos, s =>
+    let evs := s.log.drop pos
+    let hit := evs.zipIdx.findSome? fun (e, j) =>
+      match e with
+      | .woke i => if imms.contains i && (s.get i).woken then some (i, j) else none
+      | _ => none
+    match hit with
+    | some (i, j) => flushImm p imms k (pos + j + 1) (pollEff p s i)
+    | none =>
+      -- (woken without a fresh `woke` event cannot happen: immediate effects are never left woken)
+      match imms.find? (fun i => (s.get i).woken) with
+      | some i => flushImm p imms k pos (pollEff p s i)
+      | none => s
 
 def flush (d : DState) : DState :=
-  if d.imms.isEmpty then d else { d with s := flushImm d.prog d.imms 64 d.s }
+  if d.imms.isEmpty then d else { d with s := flushImm d.prog d.imms 64 0 d.s }
 
 /-- `idle` with immediate effects: FIFO polls, flushing after each -/
 def idleImm (p : Prog) (imms : List Nat) : Nat → State → State
   | 0, s => s
-  | k + 1, s => if (ready s).isEmpty then s else idleImm p imms k (flushImm p imms 64 (pollNth p s 0))
+  | k + 1, s =>
+    if (ready s).isEmpty then s else
+    let pos := s.log.length
+    idleImm p imms k (flushImm p imms 64 pos (pollNth p s 0))
 
 /-- `Effect::new_sync`, `Effect::new_isomorphic` and `Effect::watch` (the body being the dependency function, the handler
 reading nothing) share the task loop and `EffectInner` of `Effect::new`: for the model they are `eff` nodes. -/
@@ -435,6 +454,17 @@ def stepLine (m : Mode) (d : DState) (line : String) : DState × String :=
         (d, if m == .c02 then "ok ready=" ++ showIds (ready d.s) else "ok")
       else (d, "bad-op")
     | _, _, _ => (d, "bad-op")
+  | ["drop", id] =>
+    match id.toNat? with
+    | some id =>
+      let isMemo := match d.prog[id]? with | some (.memo _) => true | _ => false
+      let readBy := d.prog.any fun nd => match nd with
+        | .memo b => b.readsAny [id] | .eff b => b.readsAny [id] | .sig _ => false
+      if isMemo && !(d.slices.any fun (x : Nat × Nat) => x.1 == id) && !d.dropped.contains id && !readBy then
+        let d := clearLog { d with leaves := d.leaves ++ [id], dropped := d.dropped ++ [id] }
+        (d, afterOp m d none)
+      else (d, "bad-op")
+    | none => (d, "bad-op")
   | ["sset", id, v] =>
     match id.toNat?, parseInt v with
     | some id, some v =>
@@ -554,7 +584,7 @@ def stepLine (m : Mode) (d : DState) (line : String) : DState × String :=
   | ["read", id] =>
     match id.toNat? with
     | some id =>
-      match d.prog[id]? with
+      match (if d.dropped.contains id then none else d.prog[id]?) with
       | some (.sig _) | some (.memo _) =>
         let d := clearLog d
         let (s, v) := step d.prog d.s (.read id)
